@@ -1,0 +1,5 @@
+//go:build !verif
+
+package gomavlib
+
+func verifPoint(string, *Channel) {}
